@@ -2,7 +2,6 @@
 use super::*;
 use crate::verif_kani::ensure_read_id;
 
-const L: usize = 18;     // crosses the 16-byte hashing chunk
 
 /// Recording hasher: the exact sequence of write() calls (lengths and bytes).
 struct Rec { buf: [u8; 48], len: usize, calls: usize, lens: [usize; 4] }
@@ -27,7 +26,7 @@ fn same_rec(a: &Rec, b: &Rec) -> bool {
 fn up(b: u8) -> u8 { if b >= b'a' && b <= b'z' { b - 32 } else { b } }
 
 /// A symbolic valid-UTF-8 string of <= L bytes: ASCII everywhere except an optional 2-byte scalar at position k.
-fn any_str(store: &mut [u8; L]) -> usize {
+fn any_str<const L: usize>(store: &mut [u8; L]) -> usize {
     let n: usize = kani::any();
     kani::assume(n <= L);
     let k: usize = kani::any();     // k >= n: pure ASCII
@@ -58,12 +57,7 @@ fn ref_ord(a: &[u8], b: &[u8]) -> std::cmp::Ordering {
     a.len().cmp(&b.len())
 }
 
-// @harness name=c19_varname_laws props=C19 tier=quick timeout=900
-// @bound two strings of 0..18 bytes each (ASCII plus one optional 2-byte UTF-8 scalar at any position): eq, cmp, hash against a byte-wise reference; arbitrary hasher = recorded write sequence
-// @functions VarName::eq, VarName::cmp, VarName::partial_cmp, VarName::hash, VarName::new
-#[kani::proof]
-#[kani::unwind(20)]
-fn c19_varname_laws() {
+fn varname_case<const L: usize>() {
     let mut sa: [u8; L] = kani::any();
     let mut sb: [u8; L] = kani::any();
     let na = any_str(&mut sa);
@@ -82,12 +76,29 @@ fn c19_varname_laws() {
     vb.hash(&mut hb);
     if e { assert!(same_rec(&ha, &hb), "equal names feed different data to the hasher"); }
     else { assert!(!same_rec(&ha, &hb), "unequal names feed identical data to the hasher (not required by Hash, but claimed: prefix-free encoding)"); }
-    kani::cover!(e && na == 18 && sa[17] != sb[17], "equal, 18 bytes, differing only in case beyond the 16-byte chunk");
-    kani::cover!(!e && na == 16 && nb == 17, "prefix across the chunk boundary");
+    if L >= 18 {
+        kani::cover!(e && na == 18 && sa[17] != sb[17], "equal, 18 bytes, differing only in case beyond the 16-byte chunk");
+        kani::cover!(!e && na == 16 && nb == 17, "prefix across the chunk boundary");
+        kani::cover!(!e && na == nb && na == 16, "same length, exactly one chunk, different");
+    }
+    kani::cover!(!e && nb == na + 1 && nb >= 2 && sb[na] == 0, "same name plus a trailing NUL byte");
     kani::cover!(e && na > 2 && sa[1] >= 0xC2, "equal with a non-ASCII scalar");
     kani::cover!(na == 0 && nb == 0, "both empty");
-    kani::cover!(!e && na == nb && na == 16, "same length, exactly one chunk, different");
 }
+
+// @harness name=c19_varname_laws props=C19 tier=quick timeout=1500 mem=24
+// @bound two strings of 0..18 bytes each (ASCII incl. NUL plus one optional 2-byte UTF-8 scalar at any position): eq, cmp, hash against a byte-wise reference; arbitrary hasher = recorded write sequence
+// @functions VarName::eq, VarName::cmp, VarName::partial_cmp, VarName::hash, VarName::new
+#[kani::proof]
+#[kani::unwind(20)]
+fn c19_varname_laws() { varname_case::<18>(); }
+
+// @harness name=c19_varname_laws_short props=C19 tier=quick timeout=900 dead=3
+// @bound as c19_varname_laws with strings of 0..4 bytes (cheap instance: decides quickly even when the implementation under test is slow to encode)
+// @functions VarName::eq, VarName::cmp, VarName::partial_cmp, VarName::hash
+#[kani::proof]
+#[kani::unwind(20)]
+fn c19_varname_laws_short() { varname_case::<4>(); }
 
 // @harness name=c19_owned_repr props=C19,C01 tier=thorough timeout=7000 mem=24
 // @bound interned names {IPV6, HTTP2, AUTH_TYPE, PATH_INFO} (symbolic choice) vs. a custom string of the same letters in a symbolic case pattern, and vs. another interned name: eq / cmp / hash agree with the borrowed view in all representation combinations
